@@ -102,7 +102,7 @@ int parsec_data_transfer_ownership_to_copy(parsec_data_t *data, uint8_t device, 
 static void dump_state(char *buf, unsigned long n)
 {
     unsigned long l = 0;
-    int full = -1;
+    int full = -1, leaked = 0, waiting = 0;
     buf[0] = 0;
     for (int k = 0; k < SH->ntiles && l + 160 < n; k++) {
         parsec_data_t *d = DC ? DC->data_of(DC, k, 0) : NULL;
@@ -110,6 +110,8 @@ static void dump_state(char *buf, unsigned long n)
         l += (unsigned long)snprintf(buf + l, n - l, " t%d{own=%d", k, d->owner_device);
         for (int i = 0; i < (int)parsec_nb_devices && l + 80 < n; i++) {
             parsec_data_copy_t *c = d->device_copies[i];
+            if (c && i > 0 && 0 == c->readers && PARSEC_DATA_COHERENCY_INVALID != c->coherency_state && PARSEC_DATA_COHERENCY_OWNED != c->coherency_state &&
+                ((parsec_list_item_t *)c)->list_next == (parsec_list_item_t *)c) leaked++;
             if (c) l += (unsigned long)snprintf(buf + l, n - l, " %d:c%d v%u r%d%s%s", i, (int)c->coherency_state, c->version, c->readers, c->data_transfer_status == PARSEC_DATA_STATUS_UNDER_TRANSFER ? "U" : "",
                                                 i > 0 && ((parsec_list_item_t *)c)->list_next != (parsec_list_item_t *)c ? "L" : "");
         }
@@ -140,7 +142,10 @@ static void dump_state(char *buf, unsigned long n)
         l += (unsigned long)snprintf(buf + l, n - l, " dev%d{mutex=%d lru=%d owned_lru=%d parked=%d epoch=%lu inuse=%lu}", g->super.device_index, g->mutex, nl, no, np,
                                      (unsigned long)g->data_avail_epoch, g->memory ? (unsigned long)zone_in_use(g->memory) : 0UL);
         if (0 == nl && no > 0 && g->mutex > 0) full = g->super.device_index;
+        if (g->mutex > 0) waiting = 1;
     }
+    if (full < 0 && leaked > 0 && waiting && l + 200 < n)
+        l += (unsigned long)snprintf(buf + l, n - l, " [lru-leak: %d clean device copies without reader are in no LRU (dropped by reserve_space, never pushed back) while a task waits for device memory]", leaked);
     if (full >= 0 && l + 200 < n)
         snprintf(buf + l, n - l, " [device-memory-full-of-dirty-copies: device %d has no clean copy to evict, only OWNED ones, a task is waiting for memory in the device pipeline and no write-back is ever issued]", full);
 }
